@@ -509,7 +509,7 @@ func (b *builder) call(c *ssa.Call) *Expr {
 	if isKVStoreRecv(cc) && methodName(cc) == "Get" && len(cc.Args) == 1 {
 		key := b.expr(cc.Args[0])
 		sec := b.w.SectionOfKey(key)
-		if ps := b.w.prefixOfStore(cc); ps != "" {
+		if ps, _ := b.w.prefixOfStore(cc); ps != "" {
 			sec = ps
 		}
 		return &Expr{Op: "state", Name: sec, Args: []*Expr{key}, Call: c}
